@@ -8,12 +8,12 @@ VERIF = os.path.dirname(os.path.dirname(os.path.abspath(__file__)))
 
 
 @contextlib.contextmanager
-def site(files: dict, meta: str, cargs=None, body="Project text\n", name="proj.md", sandbox=None):
+def site(files: dict, meta: str, cargs=None, body="Project text\n", name="proj.md", sandbox=None, proj="proj"):
     """files: {path relative to the project directory: text}; meta: metadata lines of the project file.  Yields (project dir, status)."""
     os.makedirs(realrun.TMPROOT, exist_ok=True)
     sb = sandbox or tempfile.mkdtemp(dir=realrun.TMPROOT)
     try:
-        pd = os.path.join(sb, "proj")
+        pd = os.path.join(sb, proj)
         for rel, text in files.items():
             p = os.path.join(pd, rel)
             os.makedirs(os.path.dirname(p), exist_ok=True)
